@@ -79,10 +79,7 @@ def validate(V, tier):
     r = run_tlc('MC_Trace_Json', 'Trace_Json.cfg', workers=1,
                 env={'TRACE_FILE': path}, timeout=3600, want_cases=False,
                 name='trace-json')
-    m = re.search(r'<<"TRACES", (\d+), "REJECTED", (.*)>>\s*$', r.stdout,
-                  re.M)
-    if r.error and 'TraceAccepted' not in (r.error or '') and not m:
-        raise MachineryError('trace validation failed to run: %s' % r.error)
+    i = r.stdout.find('<<"TRACES"')
     if r.violated:
         p = os.path.join(V.replay_dir, 'trace-invariant.txt')
         with open(p, 'w') as f:
@@ -90,10 +87,18 @@ def validate(V, tier):
         V._violation_line(p, 'a recorded emit_json trace violates emitter '
                           'invariant %s' % r.violated)
         return
-    if not m:
+    if i < 0:
         raise MachineryError('no verdict from trace validation: %s' %
-                             r.stdout[-1500:])
-    rejected = [int(x) for x in re.findall(r'\d+', m.group(2).split('}')[0])]
+                             (r.error or r.stdout[-1500:]))
+    verdict = r.stdout[i:]
+    j = verdict.find('\nError:')
+    if j >= 0:
+        verdict = verdict[:j]
+    mset = re.search(r'"REJECTED",\s*\{([^}]*)\}', verdict)
+    if not mset:
+        raise MachineryError('unparsable trace verdict: %s' % verdict[:500])
+    rejected = [int(x) for x in re.findall(r'\d+', mset.group(1))]
+    m = None
     V.states += r.distinct
     V.transitions += r.generated
     V.traces += len(traces) - len(rejected)
@@ -102,7 +107,11 @@ def validate(V, tier):
                        'from_repo_tests': n_repo, 'rejected': len(rejected),
                        'distinct_states': r.distinct})
     far = dict((int(a), int(b)) for a, b in re.findall(
-        r'(\d+) :> (\d+)', m.group(2)))
+        r'(\d+) :> (\d+)', verdict))
+    if len(rejected) == 1 and not far:
+        mm = re.search(r'<<(\d+)>>', verdict[verdict.find('}'):])
+        if mm:
+            far[rejected[0]] = int(mm.group(1))
     for i in rejected[:10]:
         tr = traces[i - 1]
         pos = far.get(i, 1)
